@@ -3,6 +3,12 @@
 #         plain (ordinary Go test: enumerations, corpus replays; number passed as VERIF_P_CASES),
 #         fuzz  (native go test -fuzz, thorough tier only, bounded by fuzztime seconds)
 PROPS = {
+    "C01": {
+        "level": "fault_enumeration",
+        "tests": [
+            {"name": "TestC01", "quick": 480, "thorough": 6000},
+        ],
+    },
     "C10": {
         "level": "exploration",
         "tests": [
